@@ -3,7 +3,8 @@
 (* Replica.tla.  Every Block node is the record of one replica after committing one block of the shared   *)
 (* workload: args.r replica, args.h block index, args.wl digest of the block's input, st.stores one       *)
 (* digest per module store (+ bank), st.txs results (ok, code, response hash, gas) of the block's         *)
-(* messages, res the hook results.  The replica "gen" (the run that generated the workload) is the        *)
+(* messages, st.evs the order-sensitive digests of the events emitted by BeginBlock, by every message and  *)
+(* by EndBlock (events are part of a transaction's / block hook's result), res the hook results.  The replica "gen" (the run that generated the workload) is the        *)
 (* reference; equality is transitive, so every pair of replicas is compared through it.                   *)
 EXTENDS Integers, Sequences, FiniteSets, TLC, Json
 CONSTANT LogFile, Ref
@@ -23,7 +24,8 @@ RefAt == [h \in 0..MaxH |-> CHOOSE j \in RefIds : Nd(j).args.h = h]
 HasRef(nd) == nd.args.h \in 0..MaxH
 
 (* the replica state of Replica.tla: [h, s, res] *)
-Rep(nd) == [h |-> nd.args.h, s |-> nd.st.stores, res |-> <<nd.st.txs, nd.res>>]
+Rep(nd) == [h |-> nd.args.h, s |-> nd.st.stores, res |-> <<nd.st.txs, nd.res>>,
+            ev |-> <<nd.st.evs.begin, nd.st.evs.txs, nd.st.evs.end>>]
 
 (* antecedent of the property: the replicas really were fed the same block *)
 ConfSameBlocks(nd) == IsBlock(nd) => HasRef(nd) /\ nd.args.wl = Nd(RefAt[nd.args.h]).args.wl
@@ -32,14 +34,17 @@ ConfHeights(nd) == IsBlock(nd) /\ nd.parent > 0 /\ IsBlock(Nd(nd.parent)) => nd.
 
 C16SameState(nd)   == IsBlock(nd) /\ HasRef(nd) => Rep(nd).s   = Rep(Nd(RefAt[nd.args.h])).s
 C16SameResults(nd) == IsBlock(nd) /\ HasRef(nd) => Rep(nd).res = Rep(Nd(RefAt[nd.args.h])).res
+(* the emitted events (type, attributes, order) are part of the results of transactions and block hooks *)
+C16SameEvents(nd)  == IsBlock(nd) /\ HasRef(nd) => Rep(nd).ev  = Rep(Nd(RefAt[nd.args.h])).ev
 
-Formulas == <<"Conf_SameBlocks", "Conf_Heights", "C16_SameState", "C16_SameResults">>
+Formulas == <<"Conf_SameBlocks", "Conf_Heights", "C16_SameState", "C16_SameResults", "C16_SameEvents">>
 Holds(f, i) ==
   LET nd == Nd(i) IN
   CASE f = "Conf_SameBlocks" -> ConfSameBlocks(nd)
     [] f = "Conf_Heights"    -> ConfHeights(nd)
     [] f = "C16_SameState"   -> C16SameState(nd)
     [] f = "C16_SameResults" -> C16SameResults(nd)
+    [] f = "C16_SameEvents"  -> C16SameEvents(nd)
 Judge == \A k \in 1..Len(Formulas) : Holds(Formulas[k], cur) \/ PrintT(<<"FAIL", Formulas[k], cur>>)
 
 ReplicaNames == {Nd(j).args.r : j \in {k \in 1..NLog : IsBlock(Nd(k))}}
@@ -49,6 +54,7 @@ Stats == PrintT(<<"STATS", [nodes |-> NLog,
    compared  |-> Cardinality({j \in 1..NLog : IsBlock(Nd(j)) /\ Nd(j).args.r # Ref /\ HasRef(Nd(j))}),
    txs       |-> Cardinality({<<j, k>> \in {<<a, b>> \in (1..NLog) \X (1..200) : IsBlock(Nd(a)) /\ Nd(a).args.r = Ref /\ b <= Nd(a).st.ntx} : TRUE}),
    okTxs     |-> Cardinality({<<a, b>> \in (1..NLog) \X (1..200) : IsBlock(Nd(a)) /\ Nd(a).args.r = Ref /\ b <= Nd(a).st.ntx /\ Nd(a).st.txs[b].ok}),
+   refBlocksWithEvents |-> Cardinality({j \in RefIds : Nd(j).st.evs.n > 0}),
    halted    |-> Cardinality({j \in 1..NLog : IsBlock(Nd(j)) /\ (Nd(j).res.begin \/ Nd(j).res.end)}) ]>>)
 AllSeen == Stats /\ TLCGet("stats").distinct = NLog
 =============================================================================
